@@ -15,3 +15,189 @@ package mqtt
 //@ modifies cl.Net.Conn.deadline, lastNow
 //@ ensures one-and-a-half-keepalive: keepalive > 0 && cl.Net.Conn != nil ==> durOf(lastNow, cl.Net.Conn.deadline) == 1500000000 * int64(keepalive)
 //@ ensures zero-disables: keepalive == 0 && cl.Net.Conn != nil ==> cl.Net.Conn.deadline == zerovalue("time.Time")
+
+// ---- in-flight table: map view (C08-C11) ----
+// verif:func mqtt.Inflight.Set
+//@ requires i.internal != nil
+//@ modifies entries(i.internal)
+//@ ensures result: r0 <==> !old(has(i.internal, m.PacketID))
+//@ ensures stored: has(i.internal, m.PacketID) && i.internal[m.PacketID] == m
+//@ ensures others: forall k uint16 :: k != m.PacketID ==> (has(i.internal, k) <==> old(has(i.internal, k))) && i.internal[k] == old(i.internal[k])
+//@ ensures size: len(i.internal) == old(len(i.internal)) + (r0 ? 1 : 0)
+
+// verif:func mqtt.Inflight.Get
+//@ ensures found: r1 <==> has(i.internal, id)
+//@ ensures value: r1 ==> r0 == i.internal[id]
+
+// verif:func mqtt.Inflight.Len
+//@ ensures r0 == len(i.internal)
+
+// verif:func mqtt.Inflight.Delete
+//@ modifies entries(i.internal)
+//@ ensures result: r0 <==> old(has(i.internal, id))
+//@ ensures removed: !has(i.internal, id)
+//@ ensures others: forall k uint16 :: k != id ==> (has(i.internal, k) <==> old(has(i.internal, k))) && i.internal[k] == old(i.internal[k])
+//@ ensures size: i.internal != nil ==> len(i.internal) == old(len(i.internal)) - (r0 ? 1 : 0)
+
+// ---- flow-control quota counters: saturating +-1 (C11) ----
+// verif:func mqtt.Inflight.DecreaseReceiveQuota
+//@ modifies i.receiveQuota
+//@ ensures i.receiveQuota == (old(i.receiveQuota) > 0 ? old(i.receiveQuota) - 1 : old(i.receiveQuota))
+// verif:func mqtt.Inflight.IncreaseReceiveQuota
+//@ modifies i.receiveQuota
+//@ ensures i.receiveQuota == (old(i.receiveQuota) < i.maximumReceiveQuota ? old(i.receiveQuota) + 1 : old(i.receiveQuota))
+// verif:func mqtt.Inflight.ResetReceiveQuota
+//@ modifies i.receiveQuota, i.maximumReceiveQuota
+//@ ensures i.receiveQuota == n && i.maximumReceiveQuota == n
+// verif:func mqtt.Inflight.DecreaseSendQuota
+//@ modifies i.sendQuota
+//@ ensures i.sendQuota == (old(i.sendQuota) > 0 ? old(i.sendQuota) - 1 : old(i.sendQuota))
+// verif:func mqtt.Inflight.IncreaseSendQuota
+//@ modifies i.sendQuota
+//@ ensures i.sendQuota == (old(i.sendQuota) < i.maximumSendQuota ? old(i.sendQuota) + 1 : old(i.sendQuota))
+// verif:func mqtt.Inflight.ResetSendQuota
+//@ modifies i.sendQuota, i.maximumSendQuota
+//@ ensures i.sendQuota == n && i.maximumSendQuota == n
+
+// ---- C10: outbound packet identifiers are in 1..max and not in use ----
+// verif:def maxID(cl *Client) uint32 = cl.ops.options.Capabilities.maximumPacketID
+// verif:func mqtt.Client.NextPacketID
+//@ requires cl.ops != nil && cl.ops.options != nil && cl.ops.options.Capabilities != nil && cl.State.Inflight != nil
+//@ requires maxID(cl) <= 65535 && cl.State.packetID <= maxID(cl)
+//@ modifies cl.State.packetID
+//@ ensures fresh-id: err == nil ==> 1 <= i && i <= maxID(cl) && !has(cl.State.Inflight.internal, uint16(i)) && cl.State.packetID == i
+//@ ensures exhausted-only-if-all-used: err != nil ==> i == 0 && (forall id uint32 :: 1 <= id && id <= maxID(cl) ==> has(cl.State.Inflight.internal, uint16(id)))
+//@ ensures cursor-in-range: cl.State.packetID <= maxID(cl)
+// verif:loop mqtt.Client.NextPacketID 1
+//@ invariant range: 0 <= i && i <= maxID(cl) && started <= maxID(cl) && started == old(cl.State.packetID) && cl.State.packetID == old(cl.State.packetID)
+//@ invariant first-pass: !overflowed ==> started <= i && (forall id uint32 :: started < id && id <= i ==> has(cl.State.Inflight.internal, uint16(id)))
+//@ invariant second-pass: overflowed ==> i <= started && (forall id uint32 :: started < id && id <= maxID(cl) ==> has(cl.State.Inflight.internal, uint16(id))) && (forall id uint32 :: 0 < id && id <= i ==> has(cl.State.Inflight.internal, uint16(id)))
+//@ decreases overflowed ? started - i : maxID(cl) - i + started + 1
+
+// ======================================================================================
+// Handler level (P*): ghost traces. Sequential semantics: no other goroutine touches the
+// client, the in-flight table or the counters while a handler runs (assumption A-seq).
+// ======================================================================================
+// packets accepted by WritePacket for a client, in order
+// verif:ghost field nsent ref int
+// verif:ghost field sentpk ref seq:packets.Packet
+// Stop was called on the client
+// verif:ghost field stopped ref bool
+// hook / storage events, in order: kind, client, packet id
+// verif:ghost var nev int
+// verif:ghost var evkind (Array Int Int)
+// verif:ghost var evcl (Array Int Int)
+// verif:ghost var evid (Array Int Int)
+// messages handed to publishToSubscribers / retainMessage, in order
+// verif:ghost var nrouted int
+// verif:ghost var routedpk seq:packets.Packet
+// verif:ghost var nretain int
+// verif:ghost var retainpk seq:packets.Packet
+
+// verif:def EV_QOS_PUBLISH() int = 1
+// verif:def EV_QOS_COMPLETE() int = 2
+// verif:def EV_QOS_DROPPED() int = 3
+// verif:def EV_PUBLISHED() int = 4
+// verif:def EV_PUBLISH_DROPPED() int = 5
+// verif:def EV_PACKET_PROCESSED() int = 6
+// verif:def EV_ID_EXHAUSTED() int = 7
+// verif:def ev1(k int, c *Client, id uint16) bool = nev == old(nev) + 1 && evkind[old(nev)] == k && evcl[old(nev)] == c && evid[old(nev)] == int(id) && (forall j int :: 0 <= j && j < old(nev) ==> evkind[j] == old(evkind[j]) && evcl[j] == old(evcl[j]) && evid[j] == old(evid[j]))
+// verif:def sentOne(cl *Client) bool = cl.nsent == old(cl.nsent) + 1
+// verif:def sentNone(cl *Client) bool = cl.nsent == old(cl.nsent)
+// verif:def lastSent(cl *Client) Packet = cl.sentpk[old(cl.nsent)]
+// verif:def ifl(cl *Client) map = cl.State.Inflight.internal
+// verif:def hasT(cl *Client, id uint16, t byte) bool = has(cl.State.Inflight.internal, id) && cl.State.Inflight.internal[id].FixedHeader.Type == t
+// verif:def validCl(cl *Client) bool = cl != nil && cl.State.Inflight != nil && cl.State.Inflight.internal != nil && cl.ops != nil && cl.ops.hooks != nil
+// verif:def validSrv(s *Server) bool = s != nil && s.Info != nil && s.hooks != nil && s.Options != nil && s.Options.Capabilities != nil && s.Options.Capabilities.Compatibilities != nil && 0 <= s.Options.Capabilities.MaximumMessageExpiryInterval && s.Options.Capabilities.MaximumMessageExpiryInterval <= 4611686018427387904 && cntOK(s)
+// counters stay far from the int64 limits (2^62 events do not happen)
+// verif:def cntOK(s *Server) bool = -4611686018427387904 <= s.Info.Inflight && s.Info.Inflight <= 4611686018427387904
+
+// verif:func mqtt.Client.WritePacket trusted
+//@ modifies cl.nsent, cl.sentpk
+//@ ensures accepted: r0 == nil ==> cl.nsent == old(cl.nsent) + 1 && cl.sentpk[old(cl.nsent)] == pk
+//@ ensures refused: r0 != nil ==> cl.nsent == old(cl.nsent)
+//@ ensures older-kept: forall k int :: 0 <= k && k < old(cl.nsent) ==> cl.sentpk[k] == old(cl.sentpk[k])
+
+// verif:func mqtt.Client.Stop trusted
+//@ modifies cl.stopped
+//@ ensures cl.stopped
+
+// verif:func mqtt.Hooks.OnQosPublish trusted
+//@ modifies nev, evkind, evcl, evid
+//@ ensures ev1(EV_QOS_PUBLISH(), cl, pk.PacketID)
+// verif:func mqtt.Hooks.OnQosComplete trusted
+//@ modifies nev, evkind, evcl, evid
+//@ ensures ev1(EV_QOS_COMPLETE(), cl, pk.PacketID)
+// verif:func mqtt.Hooks.OnQosDropped trusted
+//@ modifies nev, evkind, evcl, evid
+//@ ensures ev1(EV_QOS_DROPPED(), cl, pk.PacketID)
+// verif:func mqtt.Hooks.OnPublished trusted
+//@ modifies nev, evkind, evcl, evid
+//@ ensures ev1(EV_PUBLISHED(), cl, pk.PacketID)
+// verif:func mqtt.Hooks.OnPublishDropped trusted
+//@ modifies nev, evkind, evcl, evid
+//@ ensures ev1(EV_PUBLISH_DROPPED(), cl, pk.PacketID)
+// verif:func mqtt.Hooks.OnPacketIDExhausted trusted
+//@ modifies nev, evkind, evcl, evid
+//@ ensures ev1(EV_ID_EXHAUSTED(), cl, pk.PacketID)
+
+// verif:func mqtt.Server.buildAck
+//@ requires s.Options != nil && s.Options.Capabilities != nil && s.Options.Capabilities.Compatibilities != nil
+//@ requires 0 <= s.Options.Capabilities.MaximumMessageExpiryInterval && s.Options.Capabilities.MaximumMessageExpiryInterval <= 4611686018427387904
+//@ modifies lastNow
+//@ ensures shape: r0.FixedHeader.Type == pkt && r0.FixedHeader.Qos == qos && r0.PacketID == packetID && r0.ReasonCode == reason.Code
+//@ ensures flags: !r0.FixedHeader.Dup && !r0.FixedHeader.Retain
+
+// ---- PUBACK from the client: completes the broker's outbound QoS 1 publish with that id ----
+// verif:func mqtt.Server.processPuback modifies=all
+//@ requires validCl(cl) && validSrv(s)
+//@ ensures C07-no-error: r0 == nil
+//@ ensures C09-other-ids-untouched: forall k uint16 :: k != pk.PacketID ==> (has(ifl(cl), k) <==> old(has(ifl(cl), k))) && ifl(cl)[k] == old(ifl(cl)[k])
+//@ ensures C09-acknowledged-removed: old(hasT(cl, pk.PacketID, Publish)) ==> !has(ifl(cl), pk.PacketID)
+//@ ensures C10-inbound-record-kept: old(hasT(cl, pk.PacketID, Pubrec)) ==> hasT(cl, pk.PacketID, Pubrec)
+//@ ensures C11-send-quota-returned: old(hasT(cl, pk.PacketID, Publish)) ==> cl.State.Inflight.sendQuota == (old(cl.State.Inflight.sendQuota) < cl.State.Inflight.maximumSendQuota ? old(cl.State.Inflight.sendQuota) + 1 : old(cl.State.Inflight.sendQuota))
+//@ ensures C11-no-quota-without-record: !old(has(ifl(cl), pk.PacketID)) ==> cl.State.Inflight.sendQuota == old(cl.State.Inflight.sendQuota) && cl.State.Inflight.receiveQuota == old(cl.State.Inflight.receiveQuota)
+//@ ensures C11-receive-quota-untouched: cl.State.Inflight.receiveQuota == old(cl.State.Inflight.receiveQuota)
+//@ ensures C38-counter-follows-table: s.Info.Inflight - old(s.Info.Inflight) == len(ifl(cl)) - old(len(ifl(cl)))
+//@ ensures C21-completion-recorded: old(has(ifl(cl), pk.PacketID)) ==> ev1(EV_QOS_COMPLETE(), cl, pk.PacketID)
+//@ ensures nothing-sent: sentNone(cl)
+
+// ---- PUBREC from the client: second step of the broker's outbound QoS 2 publish ----
+// verif:func mqtt.Server.processPubrec modifies=all
+//@ requires validCl(cl) && validSrv(s)
+//@ ensures C09-pubrel-follows-pubrec: old(hasT(cl, pk.PacketID, Publish)) && pk.ReasonCode == 0 && r0 == nil ==> sentOne(cl) && lastSent(cl).FixedHeader.Type == Pubrel && lastSent(cl).PacketID == pk.PacketID && hasT(cl, pk.PacketID, Pubrel)
+//@ ensures C09-other-ids-untouched: forall k uint16 :: k != pk.PacketID ==> (has(ifl(cl), k) <==> old(has(ifl(cl), k))) && ifl(cl)[k] == old(ifl(cl)[k])
+//@ ensures C10-inbound-record-kept: old(hasT(cl, pk.PacketID, Pubrec)) ==> hasT(cl, pk.PacketID, Pubrec) && ifl(cl)[pk.PacketID] == old(ifl(cl)[pk.PacketID])
+//@ ensures C11-receive-quota-untouched: cl.State.Inflight.receiveQuota == old(cl.State.Inflight.receiveQuota)
+//@ ensures C11-send-quota-held: pk.ReasonCode < 128 ==> cl.State.Inflight.sendQuota == old(cl.State.Inflight.sendQuota)
+//@ ensures C38-counter-follows-table: s.Info.Inflight - old(s.Info.Inflight) == len(ifl(cl)) - old(len(ifl(cl)))
+//@ ensures unknown-id-answered: !old(has(ifl(cl), pk.PacketID)) && r0 == nil ==> sentOne(cl) && lastSent(cl).FixedHeader.Type == Pubrel && lastSent(cl).PacketID == pk.PacketID && lastSent(cl).ReasonCode == 146
+
+// ---- PUBREL from the client: completes the client's inbound QoS 2 publish ----
+// verif:func mqtt.Server.processPubrel modifies=all
+//@ requires validCl(cl) && validSrv(s)
+//@ ensures C07-pubcomp-or-error: r0 == nil ==> sentOne(cl) && lastSent(cl).FixedHeader.Type == Pubcomp && lastSent(cl).PacketID == pk.PacketID
+//@ ensures C08-exchange-completes: old(hasT(cl, pk.PacketID, Pubrec)) && pk.ReasonCode == 0 && r0 == nil ==> !has(ifl(cl), pk.PacketID)
+//@ ensures C09-other-ids-untouched: forall k uint16 :: k != pk.PacketID ==> (has(ifl(cl), k) <==> old(has(ifl(cl), k))) && ifl(cl)[k] == old(ifl(cl)[k])
+//@ ensures C10-outbound-record-kept: old(hasT(cl, pk.PacketID, Publish)) ==> hasT(cl, pk.PacketID, Publish) && ifl(cl)[pk.PacketID] == old(ifl(cl)[pk.PacketID])
+//@ ensures C11-send-quota-untouched: cl.State.Inflight.sendQuota == old(cl.State.Inflight.sendQuota)
+//@ ensures C11-receive-quota-returned: old(hasT(cl, pk.PacketID, Pubrec)) && pk.ReasonCode == 0 && r0 == nil ==> cl.State.Inflight.receiveQuota == (old(cl.State.Inflight.receiveQuota) < cl.State.Inflight.maximumReceiveQuota ? old(cl.State.Inflight.receiveQuota) + 1 : old(cl.State.Inflight.receiveQuota))
+//@ ensures C38-counter-follows-table: r0 == nil ==> s.Info.Inflight - old(s.Info.Inflight) == len(ifl(cl)) - old(len(ifl(cl)))
+
+// ---- PUBCOMP from the client: completes the broker's outbound QoS 2 publish ----
+// verif:func mqtt.Server.processPubcomp modifies=all
+//@ requires validCl(cl) && validSrv(s)
+//@ ensures C07-no-error: r0 == nil
+//@ ensures C09-other-ids-untouched: forall k uint16 :: k != pk.PacketID ==> (has(ifl(cl), k) <==> old(has(ifl(cl), k))) && ifl(cl)[k] == old(ifl(cl)[k])
+//@ ensures C09-completed-removed: old(hasT(cl, pk.PacketID, Pubrel)) ==> !has(ifl(cl), pk.PacketID)
+//@ ensures C10-inbound-record-kept: old(hasT(cl, pk.PacketID, Pubrec)) ==> hasT(cl, pk.PacketID, Pubrec)
+//@ ensures C11-send-quota-returned: old(hasT(cl, pk.PacketID, Pubrel)) ==> cl.State.Inflight.sendQuota == (old(cl.State.Inflight.sendQuota) < cl.State.Inflight.maximumSendQuota ? old(cl.State.Inflight.sendQuota) + 1 : old(cl.State.Inflight.sendQuota))
+//@ ensures C11-no-quota-without-record: !old(has(ifl(cl), pk.PacketID)) ==> cl.State.Inflight.sendQuota == old(cl.State.Inflight.sendQuota)
+//@ ensures C11-receive-quota-untouched: cl.State.Inflight.receiveQuota == old(cl.State.Inflight.receiveQuota)
+//@ ensures C38-counter-follows-table: s.Info.Inflight - old(s.Info.Inflight) == len(ifl(cl)) - old(len(ifl(cl)))
+//@ ensures nothing-sent: sentNone(cl)
+
+// ---- PINGREQ ----
+// verif:func mqtt.Server.processPingreq modifies=all
+//@ requires cl != nil
+//@ ensures C07-pingresp-or-error: r0 == nil ==> sentOne(cl) && lastSent(cl).FixedHeader.Type == Pingresp
